@@ -56,15 +56,18 @@ def random_program(rng, simu, mesh, nconds):
             nodes = nodes[np.array(rng.sample(range(nodes.size), nodes.size))]  # permuted
         if first:
             unk = list(unknowns)
-        elif c == 1 and dim > 1:
+        elif c == 1:
             unk = list(unknowns)[::-1]          # several unknowns listed in non-canonical order, with distinct values per unknown
+            nodes = np.array(nodes)[np.array(rng.sample(range(len(nodes)), len(nodes)))]    # and nodes in a shuffled order, values as arrays
         else:
             k = rng.randint(1, dim)
             unk = rng.sample(list(unknowns), k)
         first = False
         vals, spec = [], []
-        for u in unk:
+        for ku, u in enumerate(unk):
             form = rng.choice(["const", "array", "func"])
+            if c == 1 and ku == 0:
+                form = "array"
             if form == "const":
                 v = dy(rng, -1, 1)
                 vals.append(v)
@@ -276,6 +279,34 @@ def main():
                 got = ud[meshd.Nodes_Point(pC)[0], 1]
                 if not np.isfinite(got) or abs(got - 0.375) > 1e-9:
                     res.fail("lagrange repeated-dof", f"dof entered twice (0.25 + 0.125) on the multiplier path holds {got!r} instead of 0.375", ident)
+            # the order in which the conditions (and the unknowns inside a condition) are entered must not matter on the multiplier path
+            for order in ("tip first", "tip first, unknowns reversed", "clamp unknowns reversed"):
+                beams = [Models.Beam.Isotropic(2, Line(pA, pB, L / 4), sect, E, v), Models.Beam.Isotropic(2, Line(pB, pC, L / 4), sect, E, v)]
+                mesho = Mesher().Mesh_Beams(beams, elemType=ElemType(et))
+                so = Simulations.Beam(mesho, Models.Beam.BeamStructure(beams), useTimoshenko=timo)
+                clampv = [0.0, 0.001, -0.002]
+                if order == "clamp unknowns reversed":
+                    so.add_dirichlet(mesho.Nodes_Point(pA), clampv[::-1], ["rz", "y", "x"])
+                    so.add_connection_fixed(mesho.Nodes_Point(pB))
+                    so.add_dirichlet(mesho.Nodes_Point(pC), tipval[:2], ["x", "y"])
+                else:
+                    if order == "tip first":
+                        so.add_dirichlet(mesho.Nodes_Point(pC), tipval[:2], ["x", "y"])
+                    else:
+                        so.add_dirichlet(mesho.Nodes_Point(pC), tipval[:2][::-1], ["y", "x"])
+                    so.add_connection_fixed(mesho.Nodes_Point(pB))
+                    so.add_dirichlet(mesho.Nodes_Point(pA), clampv, ["x", "y", "rz"])
+                so.add_neumann(mesho.Nodes_Point(pC), [3.0], ["rz"])
+                res.case(("beam", et, timo, "order", order))
+                try:
+                    uo = np.asarray(so.Solve()).reshape(-1, 3)
+                except Exception as ex:  # noqa: BLE001
+                    res.fail("lagrange entry order raises", f"{type(ex).__name__}: {str(ex)[:150]}", dict(ident, order=order))
+                    continue
+                nAo, nCo = mesho.Nodes_Point(pA)[0], mesho.Nodes_Point(pC)[0]
+                if np.abs(uo[nCo, :2] - np.array(tipval[:2])).max() > 1e-9 or np.abs(uo[nAo] - np.array(clampv)).max() > 1e-9:
+                    res.fail("lagrange dirichlet-value entry order", f"conditions entered as '{order}': the tip holds {uo[nCo, :2].tolist()} (prescribed {tipval[:2]}) and the clamp {uo[nAo].tolist()} (prescribed {clampv})",
+                             dict(ident, order=order))
             s1, mesh1, u1 = out["one-beam"]
             nC1 = mesh1.Nodes_Point(pC)[0]
             res.case(("beam", et, timo, "lagrange-vs-elimination"))
